@@ -7,7 +7,7 @@
    STOP_END key and every delay whose DELAY_END key is passed.  Monotonicity in (beat, tag), the offset
    law, the BPM reported for a beat and the ordering / coalescing invariants are separate theorems.
    C11_redundant_bpm: inserting a BPM row that repeats the BPM in force changes no time_at answer.
-   Left to the correspondence: the binary64 gap (measured, 1e-9 s) and queries tagged WARP / WARP_END. *)
+   Left to the correspondence: the binary64 gap (measured, 1e-9 s) and queries tagged WARP / WARP_END on beat 0 itself. *)
 From Coq Require Import List ZArith QArith Bool Sorting.Sorted Lia Lqa.
 From SV Require Import Sx Beat Engine Generated.Tables Proofs.EngineFacts Proofs.Hittable Proofs.TimeLaw Proofs.RedundantBpm.
 Import ListNotations.
@@ -94,6 +94,23 @@ Theorem C11_time_monotone : forall td b0 v0 rest, dom td -> td_bpms td = (b0, v0
   time_at (sts td v0) (init_state td v0) b1 t1 <= time_at (sts td v0) (init_state td v0) b2 t2.
 Proof. exact time_at_monotone_all. Qed.
 Print Assumptions C11_time_monotone.
+
+(* the same two laws for every tag, WARP and WARP_END included, on beats after zero (on beat zero itself a WARP-tagged key
+   precedes the initial state's) *)
+Theorem C11_interval_law_all_tags : forall td b0 v0 rest, dom td -> td_bpms td = (b0, v0) :: rest -> b0 == 0 ->
+  forall b1 t1 b2 t2 c,
+  0 <= b1 -> b1 <= b2 -> (0 < b1 \/ (2 <= t1)%Z) -> (0 < b2 \/ (2 <= t2)%Z) -> (b1 == b2 -> (t1 <= t2)%Z) ->
+  (forall x, b1 <= x -> x < b2 -> is_rate td x c) ->
+  time_at (sts td v0) (init_state td v0) b2 t2 ==
+  time_at (sts td v0) (init_state td v0) b1 t1 + c * (b2 - b1) + pauses_between td b1 t1 b2 t2.
+Proof. exact time_interval_law_gen. Qed.
+Print Assumptions C11_interval_law_all_tags.
+
+Theorem C11_time_monotone_all_tags : forall td b0 v0 rest, dom td -> td_bpms td = (b0, v0) :: rest ->
+  forall b1 t1 b2 t2, 0 <= b1 -> b1 <= b2 -> (0 < b1 \/ (2 <= t1)%Z) -> (0 < b2 \/ (2 <= t2)%Z) -> (b1 == b2 -> (t1 <= t2)%Z) ->
+  time_at (sts td v0) (init_state td v0) b1 t1 <= time_at (sts td v0) (init_state td v0) b2 t2.
+Proof. exact time_at_monotone_gen. Qed.
+Print Assumptions C11_time_monotone_all_tags.
 
 (* inserting a BPM change that repeats the BPM already in force changes no answer: td' is td with the row (x, v)
    inserted among the BPMS, everything else equal, v the BPM in force at x in td *)
